@@ -296,6 +296,29 @@ theorem frame (w : Nat → Content → Content) (p : List Step) :
     simp only [exec]
     rw [ih (k + 1) (exec1 w k h s) (by rw [h1.2]; exact hw.2), h1.1]
 
+/-- **names_fresh_iff_tagged.** The static classification is sound for storage, not only for
+writes: after executing a `writesFresh` protocol, a name refers to storage allocated by the protocol
+exactly when its static tag says so — so a result field the table calls fresh cannot be a view of
+an operand, and one it calls a view is one. -/
+theorem names_fresh_iff_tagged (w : Nat → Content → Content) (p : List Step) :
+    ∀ (k : Nat) (h : Heap), writesFresh (h.env.map Loc.isNew) p = true →
+      (exec w k h p).env.map Loc.isNew = p.foldl tag1 (h.env.map Loc.isNew) := by
+  induction p with
+  | nil => intro k h _; rfl
+  | cons s ss ih =>
+    intro k h hw
+    simp only [writesFresh, Bool.and_eq_true] at hw
+    have h1 := exec1_old w k h s _ rfl hw.1
+    simp only [exec, List.foldl_cons]
+    rw [ih (k + 1) (exec1 w k h s) (by rw [h1.2]; exact hw.2), h1.2]
+
+/-- **alias_map_consistent.** For every protocol of the table the alias map used by the tie
+(`origins`: which operand buffer a name may share storage with) calls a name fresh exactly when
+the tag analysis of `frame` does (whole table, by evaluation). -/
+theorem alias_map_consistent : ∀ p ∈ protocols,
+    (origins p.operands.length p.steps).map Option.isNone = p.steps.foldl tag1 p.tags0 := by
+  decide
+
 /-- **all_protocols_write_fresh.** Every protocol of the transcribed table is well scoped and
 writes only into buffers it allocated itself (the whole table, by evaluation). -/
 theorem all_protocols_write_fresh : ∀ p ∈ protocols, p.writesFresh = true ∧ p.wellScoped = true := by
